@@ -27,4 +27,31 @@ CHECKS = {
             "after a trim + reopen the reported first offset may fall back to the base of the oldest surviving segment (accepted)",
         ],
     },
+    "C10": {
+        "level": "fault_enumeration",
+        "tests": [
+            {"pkg": "walx", "run": "^TestC10_Crash$", "quick": 40000, "thorough": 600000},
+            {"pkg": "walx", "run": "^TestC10_Corrupt$", "quick": 40000, "thorough": 600000},
+        ],
+        "floors": {"hit_stored_bytes": 0.15, "tail_record_hit": 0.10},
+        "rule": "(a) power-loss images of a real WAL (SyncData=true): the durable content of each segment file is what it "
+                "held at its last msync (observed through the verif flush hook; zeros if never msynced), every chunk "
+                "(8..4096 B) changed since then independently persists, is lost, or is torn (zero/0xFF/garbage on the "
+                "changed bytes only); index files of closed segments may be absent, cut or zero-tailed; never-msynced "
+                "newest segment files may be absent. Oracle: reopen succeeds, recovered log = every entry covered by a "
+                "successful Sync + a prefix of the rest, bit-identical; then new entries (often the same encoded size as "
+                "the lost ones) are appended, the WAL is reopened again and must equal the model exactly. (b) one damaged "
+                "region in a cleanly closed WAL (hostile length words, header/payload byte flips, zero/0xFF/random "
+                "ranges, index file removed/cut/extended/flipped; both formats): never panics, every entry served is "
+                "bit-identical to the model, damage confined to uncommitted records of the last segment is discarded, a "
+                "successful open never silently drops committed entries. Non-trivial = the damage hit bytes of a stored "
+                "record or index (a) / an unsynced or reported-synced record lay in at-risk bytes (b); distinct = "
+                "distinct written-out history.",
+        "assumptions": [
+            "sector-atomic media: bytes that were durable and not rewritten since the last msync keep their value",
+            "v1 (legacy) records and index files carry no checksum: for damaged v1 data only 'no panic' is claimed",
+            "a log that is blank from offset 0 cannot be told apart from the empty log a snapshot install leaves (accepted)",
+            "several independent damaged spots in one image: only 'no panic' is claimed (CRC32 can be defeated by coordinated changes)",
+        ],
+    },
 }
